@@ -842,10 +842,25 @@ def thr1(ctx: Ctx) -> None:
     body = copy.deepcopy([s for s in fn.body if not (isinstance(s, ast.Expr) and isinstance(s.value, ast.Constant))])
     events: List[str] = []
 
+    snaps: Set[str] = set()
+
     class Tag(ast.NodeTransformer):
+        def visit_Assign(self, a: ast.Assign):
+            # snapshot = sys._current_frames(): the sample is taken here; snapshot.get(ident) / snapshot[ident] later only reads it
+            if norm(a.value) == "sys._current_frames()" and len(a.targets) == 1 and isinstance(a.targets[0], ast.Name):
+                events.append("frames")
+                snaps.add(a.targets[0].id)
+                return ast.copy_location(ast.Assign(targets=a.targets, value=ast.Name(id="SNAPSHOT", ctx=ast.Load())), a)
+            self.generic_visit(a)
+            return a
+
         def visit_Call(self, c: ast.Call):
             self.generic_visit(c)
             t = norm(c)
+            if isinstance(c.func, ast.Attribute) and c.func.attr == "get" and isinstance(c.func.value, ast.Name) and c.func.value.id in snaps:
+                if f"{tvar}.ident" not in t:
+                    events.append("noident")
+                return ast.copy_location(ast.Name(id="FRAME", ctx=ast.Load()), c)
             if t == f"{tvar}.is_alive()":
                 k = sum(1 for e in events if e.startswith("alive"))
                 events.append(f"alive{k}")
@@ -859,6 +874,10 @@ def thr1(ctx: Ctx) -> None:
 
         def visit_Subscript(self, n: ast.Subscript):
             self.generic_visit(n)
+            if isinstance(n.value, ast.Name) and n.value.id in snaps and isinstance(n.ctx, ast.Load):
+                if f"{tvar}.ident" not in norm(n):
+                    events.append("noident")
+                return ast.copy_location(ast.Name(id="FRAME", ctx=ast.Load()), n)
             if norm(n.value) == "sys._current_frames()":
                 events.append("frames")
                 if f"{tvar}.ident" not in norm(n):
